@@ -13,6 +13,7 @@ import (
 	"github.com/ipfs/go-libdht/kad/key/bit256"
 	"github.com/ipfs/go-libdht/kad/key/bitstr"
 	"github.com/ipfs/go-libdht/kad/trie"
+	mh "github.com/multiformats/go-multihash"
 
 	"github.com/libp2p/go-libp2p-kad-dht/provider/internal/keyspace"
 )
@@ -82,6 +83,26 @@ func (s *SweepingProvider) VerifSlot(prefix string) time.Duration {
 func (s *SweepingProvider) VerifTimeBetween(a, b time.Duration) time.Duration { return s.timeBetween(a, b) }
 
 func (s *SweepingProvider) VerifTimeUntil(d time.Duration) time.Duration { return s.timeUntil(d) }
+
+// VerifSetAvgPrefixLen sets the cached average prefix length, still valid (the cached value is used) or expired (the
+// average of the scheduled prefixes' lengths replaces it when the schedule is not empty).
+func (s *SweepingProvider) VerifSetAvgPrefixLen(n int, valid bool) {
+	s.cachedAvgPrefixLen = n
+	s.lastAvgPrefixLen = time.Now()
+	s.avgPrefixLenValidity = 0
+	if valid {
+		s.avgPrefixLenValidity = time.Hour
+	}
+}
+
+// VerifGroup calls groupAndScheduleKeysByPrefix and returns prefix -> number of keys.
+func (s *SweepingProvider) VerifGroup(keys []mh.Multihash, schedule bool) map[string]int {
+	out := map[string]int{}
+	for p, ks := range s.groupAndScheduleKeysByPrefix(keys, schedule) {
+		out[string(p)] = len(ks)
+	}
+	return out
+}
 
 // VerifHistory records a successful reprovide of prefix at the current (virtual) time.
 func (s *SweepingProvider) VerifHistory(prefix string) { s.persistSuccessfulReprovide(bitstr.Key(prefix)) }
